@@ -21,6 +21,8 @@ def run(ctx):
     monitor.enable(*monitors(ctx))
     from .. import w_suite
     w_suite.maybe(ctx)      # thorough tier: the repository's own tests under this property's monitors
+    from .. import w_misc
+    w_misc.drive_session(ctx, ctx.tier)   # long-lived signature objects through many operations
     ctx.floor('C01.merge_results', 500)
     ctx.floor('C01.merge_results_n3', 50)
     w_alg.drive_merge(ctx, ctx.tier)
